@@ -31,10 +31,31 @@ def lift(f, *vals):
         return f(*vals)
     out = []
     for i in range(n):
-        out.append(lift(f, *[v.items[i] if isinstance(v, Tup) else v for v in vals]))
+        out.append(lift(f, *[v.items[i] if isinstance(v, Tup) else _shape_vector_elem(v, i) for v in vals]))
         if out[-1] is None:
             return None
     return Tup(out, 'vec')
+
+
+_SHAPE_ELEMENTWISE = ('floor', 'ceil', 'abs', 'round', 'rint', 'fix', 'negative', 'cast', 'm:astype', 'asarray', 'array', 'copy', 'trunc')
+
+
+def _shape_vector_elem(v, i):
+    """Item i of an expression that is element-wise in an un-indexed `.shape` (a sequence): floor(x.shape/2) meets the
+    i-th item of a vector of known length as floor(x.shape[i]/2)."""
+    if not isinstance(v, Poly) or v.const_value() is not None:
+        return v
+    atoms = v.atoms(deep=True)
+    sh = [a for a in atoms if a[0] == 'attr' and a[2] == 'shape']
+    if not sh:
+        return v
+    for a in atoms:
+        if a in sh or a[0] in ('sym', 'attr') and not any(x in sh for x in Poly.atom(a).atoms(deep=True) if x != a):
+            continue
+        inside = [x for x in Poly.atom(a).atoms(deep=True) if x in sh]
+        if inside and not (a[0] == 'app' and a[1] in _SHAPE_ELEMENTWISE):
+            return v
+    return nf.subst_value(v, {a: nf.index(Poly.atom(a), Poly.const(i)) for a in sh})
 
 
 def P(v):
@@ -356,6 +377,22 @@ HANDLERS['numpy.copy'] = lambda ip, st, a, kw, node: app('copy', P(a[0]))
 HANDLERS['copy.deepcopy'] = lambda ip, st, a, kw, node: app('deepcopy', P(a[0]))
 HANDLERS['copy.copy'] = lambda ip, st, a, kw, node: app('shallowcopy', P(a[0]))
 HANDLERS['numpy.broadcast_to'] = h_broadcast_to
+
+
+def _h_array_attr(name):
+    def h(ip, st, args, kw, node):
+        # np.shape(x) / np.size(x) / np.ndim(x) of an array is x.shape / x.size / x.ndim
+        if len(args) == 1 and not kw and isinstance(args[0], (Poly, Tup)):
+            try:
+                return ip.load_attr(args[0], name, st, node)
+            except Exception:
+                pass
+        return app(f'numpy.{name}', *[P(a) if not isinstance(a, (Poly, Tup, Const)) else a for a in args])
+    return h
+
+
+for _nm in ('shape', 'size', 'ndim'):
+    HANDLERS[f'numpy.{_nm}'] = _h_array_attr(_nm)
 for _n in ELEMENTWISE_UNARY | {'sqrt', 'square', 'reciprocal', 'negative', 'floor', 'ceil', 'abs',
                                'absolute'}:
     HANDLERS['numpy.' + _n] = h_unary(_n)
@@ -551,7 +588,34 @@ HANDLERS['numpy.multiply.outer'] = h_generic('outer')
 HANDLERS['numpy.add.outer'] = h_generic('add_outer')
 HANDLERS['numpy.subtract.outer'] = h_generic('sub_outer')
 HANDLERS['numpy.ravel'] = lambda ip, st, a, kw, node: app('m:ravel', P(a[0]))
-HANDLERS['numpy.reshape'] = lambda ip, st, a, kw, node: app('m:reshape', P(a[0]), *[x if isinstance(x, (Poly, Tup, Const, Slice)) else P(x) for x in a[1:]])
+def _returned_tuple_len(ip, v):
+    """number of items when `v` is the result of a package function whose every return is a tuple display of that length"""
+    a = v.single_atom() if isinstance(v, Poly) else None
+    if a is None or a[0] != 'app' or not str(a[1]).startswith('call:') or not ip.repo.has_func(a[1][5:]):
+        return None
+    import ast as _ast
+    fi = ip.repo.func(a[1][5:])
+    lens = {len(r.value.elts) if isinstance(r.value, _ast.Tuple) and not any(isinstance(e, _ast.Starred) for e in r.value.elts) else None
+            for r in _ast.walk(fi.node) if isinstance(r, _ast.Return)}
+    return lens.pop() if len(lens) == 1 and None not in lens else None
+
+
+def h_reshape(ip, st, a, kw, node):
+    x = a[0]
+    shp = a[1] if len(a) == 2 else None
+    if isinstance(shp, Tup) and len(shp) == 2 and all(isinstance(d, Poly) and d.const_value() is not None and d.const_value() > 0
+                                                      for d in shp.items) and not kw:
+        r, c = (int(d.const_value()) for d in shp.items)
+        items = list(x.items) if isinstance(x, Tup) and all(isinstance(i, Poly) for i in x.items) else None
+        if items is None and r * c <= 16 and _returned_tuple_len(ip, x) == r * c:
+            items = [nf.index(x, Poly.const(k)) for k in range(r * c)]
+        if items is not None and len(items) == r * c and r * c <= 16:
+            # a short sequence of known length laid out in rows
+            return Tup([Tup(items[i * c:(i + 1) * c], 'vec') for i in range(r)], 'vec')
+    return app('m:reshape', P(x), *[v if isinstance(v, (Poly, Tup, Const, Slice)) else P(v) for v in a[1:]])
+
+
+HANDLERS['numpy.reshape'] = h_reshape
 for _n, _op in (('greater', 'gt'), ('greater_equal', 'ge'), ('less', 'lt'), ('less_equal', 'le'), ('equal', 'eq'),
                 ('not_equal', 'ne')):
     HANDLERS['numpy.' + _n] = (lambda op: (lambda ip, st, a, kw, node: ip.compare(op, a[0], a[1])))(_op)
@@ -614,6 +678,24 @@ def h_partial(ip, st, args, kw, node):
 
 
 HANDLERS['functools.partial'] = h_partial
+
+
+def h_attrgetter(ip, st, args, kw, node):
+    """operator.attrgetter('name'): a callable that reads that attribute"""
+    if len(args) == 1 and not kw and isinstance(args[0], Const) and isinstance(args[0].value, str) and '.' not in args[0].value:
+        return Const(('attrgetter', args[0].value))
+    return app('operator.attrgetter', *args)
+
+
+def h_itemgetter(ip, st, args, kw, node):
+    """operator.itemgetter(k): a callable that reads that item"""
+    if len(args) == 1 and not kw and isinstance(args[0], (Poly, Const)):
+        return Const(('itemgetter', args[0]))
+    return app('operator.itemgetter', *args)
+
+
+HANDLERS['operator.attrgetter'] = h_attrgetter
+HANDLERS['operator.itemgetter'] = h_itemgetter
 
 
 def _h_anyall(name):
